@@ -69,8 +69,11 @@ def diff(before, net, ignore_dtype=False, max_items=12):
                        f"len {len(b)} -> {len(a)})")
             continue
         if list(b.columns) != list(a.columns):
-            out.append(f"{name}: columns changed (added {[c for c in a.columns if c not in b.columns]}, "
-                       f"removed {[c for c in b.columns if c not in a.columns]})")
+            # a new column that is entirely null carries no value: not counted as a change of input data
+            added = [c for c in a.columns if c not in b.columns and not a[c].isnull().all()]
+            removed = [c for c in b.columns if c not in a.columns]
+            if added or removed:
+                out.append(f"{name}: columns changed (added {added}, removed {removed})")
         for col in b.columns:
             if col not in a.columns:
                 continue
